@@ -444,6 +444,30 @@ Proof.
   rewrite (ends_with_zero_map verneed_view vn_next); [exact He|reflexivity].
 Qed.
 
+(* the same for an auxiliary chain: the entry's count claims more auxiliaries than the chain has, the
+   chain's last auxiliary says "no further auxiliary" *)
+Theorem verdaux_chain_ended le is64 img st auxs off extra :
+  ends_with_zero vda_next auxs = true ->
+  verdaux_chain le img (sh_offset st) off auxs = true ->
+  iter_version_auxiliaries (verdef_cfg le is64) img st (List.length auxs + extra) off
+  = Ok (map verdaux_view auxs).
+Proof.
+  intros He Hc. rewrite <- (map_length verdaux_view).
+  apply iter_aux_ended; [apply verdaux_chain_ok; exact Hc|].
+  rewrite (ends_with_zero_map verdaux_view vda_next); [exact He|reflexivity].
+Qed.
+
+Theorem vernaux_chain_ended le is64 img st auxs off extra :
+  ends_with_zero vna_next auxs = true ->
+  vernaux_chain le img (sh_offset st) off auxs = true ->
+  iter_version_auxiliaries (verneed_cfg le is64) img st (List.length auxs + extra) off
+  = Ok (map vernaux_view auxs).
+Proof.
+  intros He Hc. rewrite <- (map_length vernaux_view).
+  apply iter_aux_ended; [apply vernaux_chain_ok; exact Hc|].
+  rewrite (ends_with_zero_map vernaux_view vna_next); [exact He|reflexivity].
+Qed.
+
 Lemma find_verdef_view idx : forall defs,
   find (fun v : ver_view => rec_z (fst (fst v)) "vd_ndx" =? idx) (map verdef_view defs)
   = option_map verdef_view (verdef_find idx defs).
